@@ -43,6 +43,35 @@ class Opq:
         return '<%s>' % self.text
 
 
+class Term:
+    """uninterpreted symbolic term: op applied to args (args may be Terms, Lins, constants)"""
+    __slots__ = ('op', 'args')
+
+    def __init__(self, op, args=()):
+        self.op, self.args = op, tuple(args)
+
+    def __repr__(self):
+        return self.op if not self.args else '%s(%s)' % (self.op, ', '.join(map(repr, self.args)))
+
+    def __eq__(self, o):
+        return isinstance(o, Term) and (o.op, o.args) == (self.op, self.args)
+
+    def __hash__(self):
+        return hash((self.op, self.args))
+
+
+class Raise(Exception):
+    """raised by a hook to model a call that raises `name` on this path"""
+    def __init__(self, name):
+        Exception.__init__(self, name)
+        self.name = name
+
+
+_OPNAME = {ast.Add: '+', ast.Sub: '-', ast.Mult: '*', ast.FloorDiv: '//', ast.Mod: '%', ast.LShift: '<<', ast.RShift: '>>',
+           ast.BitAnd: '&', ast.BitOr: '|', ast.BitXor: '^', ast.Div: '/', ast.Pow: '**'}
+_STR_METHODS = ('rstrip', 'lstrip', 'strip', 'startswith', 'endswith', 'lower', 'upper', 'isdigit', 'replace')
+
+
 class Path:
     def __init__(self, env, conds, effects, outcome):
         self.env, self.conds, self.effects, self.outcome = env, conds, effects, outcome
@@ -114,6 +143,10 @@ class Evaluator:
                 return self.neg(self.truth(v))
             if isinstance(v, (int, float)) and not isinstance(v, bool) or isinstance(v, bool):
                 return {ast.USub: operator.neg, ast.UAdd: operator.pos, ast.Invert: operator.invert}[type(e.op)](v)
+            if isinstance(v, (Term, Lin)):
+                if isinstance(e.op, ast.UAdd):
+                    return v
+                return Term({ast.USub: 'neg', ast.Invert: '~'}[type(e.op)], (v,))
             return Opq(u(e))
         if isinstance(e, ast.BinOp):
             a, b = self.ev(e.left, env, eff), self.ev(e.right, env, eff)
@@ -121,12 +154,17 @@ class Evaluator:
                 return Lin(a.sym, a.k + (b if isinstance(e.op, ast.Add) else -b))
             if isinstance(b, Lin) and isinstance(a, int) and isinstance(e.op, ast.Add):
                 return Lin(b.sym, b.k + a)
+            if (isinstance(a, Term) or isinstance(b, Term) or (isinstance(a, Lin) and isinstance(b, Lin))) and type(e.op) in _OPNAME \
+                    and all(isinstance(x, (Term, Lin, int)) and not isinstance(x, bool) for x in (a, b)):
+                return Term(_OPNAME[type(e.op)], (a, b))
             if is_sym_bool(a) and is_sym_bool(b) and isinstance(e.op, ast.BitXor):
                 return ('xor', (a, b))
             if is_sym_bool(a) and is_sym_bool(b) and isinstance(e.op, ast.BitAnd):
                 return ('and', (a, b))
             if is_sym_bool(a) and is_sym_bool(b) and isinstance(e.op, ast.BitOr):
                 return ('or', (a, b))
+            if isinstance(a, str) and isinstance(b, str) and isinstance(e.op, ast.Add):
+                return a + b
             if isinstance(a, str) and isinstance(e.op, ast.Mod) and is_concrete(b):
                 try:
                     return a % b
@@ -161,6 +199,10 @@ class Evaluator:
         if isinstance(e, ast.Subscript):
             base = self.ev(e.value, env, eff)
             if isinstance(e.slice, ast.Slice):
+                lo = self.ev(e.slice.lower, env, eff) if e.slice.lower is not None else None
+                hi = self.ev(e.slice.upper, env, eff) if e.slice.upper is not None else None
+                if isinstance(base, str) and e.slice.step is None and all(x is None or (isinstance(x, int) and not isinstance(x, bool)) for x in (lo, hi)):
+                    return base[lo:hi]
                 return Opq(u(e))
             idx = self.ev(e.slice, env, eff)
             if isinstance(base, (tuple, str)) and not is_sym_bool(base) and isinstance(idx, int):
@@ -185,7 +227,7 @@ class Evaluator:
                 return isinstance(op, ast.IsNot)
             t = ('free', '%r is %r' % (a, b))
             return t if isinstance(op, ast.Is) else ('not', t)
-        if isinstance(op, (ast.In, ast.NotIn)) and is_concrete(a) and is_concrete(b) and isinstance(b, (str, tuple)):
+        if isinstance(op, (ast.In, ast.NotIn)) and is_concrete(a) and (isinstance(b, dict) or (is_concrete(b) and isinstance(b, (str, tuple)))):
             try:
                 r = a in b
             except TypeError:
@@ -194,10 +236,15 @@ class Evaluator:
         if type(op) not in _CMP:
             return ('free', u(node))
         o = _CMP[type(op)]
+        if o in ('==', '!=') and all(is_sym_bool(x) or isinstance(x, bool) for x in (a, b)) and (is_sym_bool(a) or is_sym_bool(b)):
+            x = ('xor', (a, b))
+            return x if o == '!=' else ('not', x)
         if isinstance(a, (int, float)) and isinstance(b, (int, float)):
             return _CMPF[o](a, b)
-        if isinstance(a, str) and isinstance(b, str) and o in ('==', '!='):
+        if isinstance(a, str) and isinstance(b, str):
             return _CMPF[o](a, b)
+        if isinstance(a, Term) or isinstance(b, Term):
+            return ('free', '%r %s %r' % (a, o, b))
         if isinstance(a, Lin) and isinstance(b, (int, Lin)) or isinstance(b, Lin) and isinstance(a, int):
             return ('cmp', o, a, b)
         return ('free', '%r %s %r' % (a, o, b))
@@ -207,6 +254,8 @@ class Evaluator:
             return v
         if isinstance(v, Lin):
             return ('cmp', '!=', v, 0)
+        if isinstance(v, Term):
+            return ('free', '%r != 0' % (v,))
         if isinstance(v, Opq):
             return ('free', v.text)
         if isinstance(v, dict):
@@ -254,6 +303,20 @@ class Evaluator:
         if isinstance(e.func, ast.Attribute) and e.func.attr in self.method_hooks:
             recv = self.ev(e.func.value, env, eff)
             return self.method_hooks[e.func.attr](recv, args, kw, env, eff)
+        if isinstance(e.func, ast.Attribute) and e.func.attr in _STR_METHODS and not kw and all(is_concrete(a) for a in args):
+            recv = self.ev(e.func.value, env, eff)
+            if isinstance(recv, str):
+                try:
+                    return getattr(recv, e.func.attr)(*args)
+                except Exception:
+                    return Opq(u(e))
+        if isinstance(e.func, ast.Attribute) and e.func.attr == 'get' and not kw and 1 <= len(args) <= 2 and is_concrete(args[0]):
+            recv = self.ev(e.func.value, env, eff)
+            if isinstance(recv, dict):
+                try:
+                    return recv.get(args[0], args[1] if len(args) == 2 else None)
+                except TypeError:
+                    return Opq(u(e))
         if isinstance(e.func, ast.Attribute) and e.func.attr == 'append' and len(args) == 1 and not kw:
             t = u(e.func.value)
             if isinstance(env.get(t), tuple) and not is_sym_bool(env[t]):
@@ -288,6 +351,12 @@ class Evaluator:
         return done + [Path(en, co, ef, None) for (en, co, ef) in states]
 
     def stmt(self, st, env, conds, eff):
+        try:
+            return self._stmt(st, env, conds, eff)
+        except Raise as r:
+            return [Path(env, conds, list(eff), ('raise', r.name))]
+
+    def _stmt(self, st, env, conds, eff):
         if isinstance(st, ast.Assign):
             eff = list(eff)
             v = self.ev(st.value, env, eff)
@@ -330,12 +399,19 @@ class Evaluator:
                 out += self.block(st.orelse, env, conds if t is False else conds + [(t, False)], eff)
             return out
         if isinstance(st, ast.Try):
-            # the handlers are not followed: recorded as an assumption of the analysis
-            self.assumptions.append('try at line %d: body assumed not to raise' % st.lineno)
+            # handlers are followed only for exceptions a hook models; opaque calls are assumed not to raise
+            self.assumptions.append('try at line %d: opaque calls in the body assumed not to raise' % st.lineno)
             out = []
             for p in self.block(st.body, env, conds, eff):
                 if p.outcome is None:
                     out += self.block(st.orelse + st.finalbody, p.env, p.conds, p.effects)
+                elif p.outcome[0] == 'raise' and self._handler(st, p.outcome[1]) is not None:
+                    h = self._handler(st, p.outcome[1])
+                    for q in self.block(h.body, p.env, p.conds, p.effects):
+                        if q.outcome is None:
+                            out += self.block(st.finalbody, q.env, q.conds, q.effects)
+                        else:
+                            out.append(q)
                 else:
                     out.append(p)
             return out
@@ -385,6 +461,16 @@ class Evaluator:
             raise AnalysisError('sympath: `while %s` not finished after 64 rounds (line %d)' % (u(st.test), st.lineno))
         raise AnalysisError('sympath: statement kind %s not modelled (line %d)' % (type(st).__name__, st.lineno))
 
+    @staticmethod
+    def _handler(st, name):
+        for h in st.handlers:
+            if h.type is None:
+                return h
+            names = [u(x) for x in h.type.elts] if isinstance(h.type, ast.Tuple) else [u(h.type)]
+            if name in names or 'Exception' in names or 'BaseException' in names:
+                return h
+        return None
+
     def bind(self, target, v, env):
         if isinstance(target, (ast.Name, ast.Attribute)):
             env[u(target)] = v
@@ -402,6 +488,18 @@ class Evaluator:
 
     def run(self, fn, env):
         return self.block(fn.body, dict(env), [], [])
+
+
+def module_constants(mod):
+    """module-level `NAME = <literal>` bindings (dict/tuple/str/int literals) as an initial environment"""
+    env = {}
+    for st in mod.tree.body:
+        if isinstance(st, ast.Assign) and len(st.targets) == 1 and isinstance(st.targets[0], ast.Name):
+            try:
+                env[st.targets[0].id] = ast.literal_eval(st.value)
+            except Exception:
+                pass
+    return env
 
 
 def holds_tree(t, symvals, free):
